@@ -1345,13 +1345,15 @@ func hostnameFromHostPortBytes(hostPort []byte) []byte {
 }
 
 func isDomainOrSubdomainBytes(sub, parent []byte) bool {
-	if bytes.EqualFold(sub, parent) {
+	// Host names are compared ASCII case-insensitively: Unicode folding would
+	// equate e.g. U+212A (Kelvin sign) with 'k' and trust a different host.
+	if caseInsensitiveCompare(sub, parent) {
 		return true
 	}
 	if len(sub) <= len(parent) || bytes.IndexByte(sub, ':') >= 0 || bytes.IndexByte(sub, '%') >= 0 {
 		return false
 	}
-	if !bytes.EqualFold(sub[len(sub)-len(parent):], parent) {
+	if !caseInsensitiveCompare(sub[len(sub)-len(parent):], parent) {
 		return false
 	}
 	return sub[len(sub)-len(parent)-1] == '.'
